@@ -121,7 +121,13 @@ func (e *lockEnv) litEntry(lit *ast.FuncLit) LockSet {
 		if fn := calleeName(e.f.Info(), call); strings.HasSuffix(fn, ".AfterFunc") || strings.HasSuffix(fn, ".Do") && strings.Contains(fn, "Once") {
 			return LockSet{}
 		}
-		return at(call)
+		st := at(call)
+		if litArgLocks != nil {
+			for _, p := range litArgLocks(e.f, call, lit) {
+				st[p] = true
+			}
+		}
+		return st
 	}
 	// bound to a local variable: intersection over its call sites
 	if calls := closureCallSites(e.f, lit); len(calls) > 0 {
@@ -149,6 +155,12 @@ func (e *lockEnv) litEntry(lit *ast.FuncLit) LockSet {
 }
 
 func litOuterNode(lit *ast.FuncLit) ast.Node { return lit }
+
+// litArgLocks, when set by a property for the duration of its run, names extra
+// locks held at entry of a function literal that is passed as an argument to
+// a higher-order locker (e.g. eachOwnerLocked(func(batch) {...}) runs the
+// literal with batch.owner.mu held).  nil for every property but C41.
+var litArgLocks func(f *Func, call *ast.CallExpr, lit *ast.FuncLit) []string
 
 // computeLocksHook is ComputeLocks plus receive-acquire hooks.
 func computeLocksHook(f *Func, body *ast.BlockStmt, g *Graph, entry LockSet, recvAcquire map[string]string) *LockInfo {
